@@ -67,7 +67,7 @@ theorem C14_entries {c : WalkCfg} {excl : List Str → Bool → Bool} {pfx : Str
   have hd := (mem_indexesOf_iff_processed hg
     (rel', sortStrs (survivingDirs c excl rel' l'), sortStrs (keptFiles excl rel' l'))).2 ⟨l', hproc, rfl, rfl⟩
   refine ⟨_, mem_indexesOf.1 hd, ?_⟩
-  simp only [Item.write, Item.path, Item.textD, Item.text, indexPage_eq hh, okText]
+  simp only [WItem.write, WItem.path, WItem.textD, WItem.text, indexPage_eq hh, okText]
 
 /-- The sub-directory names and the file names an index is built from list, each exactly once, the surviving
     sub-directories resp. the non-excluded CMake files — when the names in the directory listing are distinct. -/
@@ -150,20 +150,20 @@ theorem C14_closed {c : WalkCfg} {excl : List Str → Bool → Bool} {pfx : Str}
     obtain ⟨ch, hm, hs⟩ := hsub
     have hproc' : Processed c excl rel listing (d.1 ++ [sub]) ch := .sub hproc hrec hm hs
     obtain ⟨subs, files, hdi⟩ := C14_survivor_has_index hs
-    have : Item.index (d.1 ++ [sub]) subs files ∈ layoutOf c excl rel listing :=
+    have : WItem.index (d.1 ++ [sub]) subs files ∈ layoutOf c excl rel listing :=
       mem_layoutOf_iff_processed.2 ⟨_, _, hproc', by rw [hdi]; exact List.mem_cons_self ..⟩
     obtain ⟨w, hw1, hw2⟩ := hw _ this
-    exact ⟨w, hw1, by simp [hw2, Item.path]⟩
+    exact ⟨w, hw1, by simp [hw2, WItem.path]⟩
   · intro f hfm hcm
     rw [h2, mem_sortStrs] at hfm
     obtain ⟨ct, hct⟩ := findFile_isSome_of_mem (mem_keptFiles.1 hfm).1
-    have hpage : Item.page d.1 f ct ∈ layoutOf c excl rel listing := by
+    have hpage : WItem.page d.1 f ct ∈ layoutOf c excl rel listing := by
       refine mem_layoutOf_iff_processed.2 ⟨_, _, hproc, mem_dirItems_page.2 ⟨?_, rfl, hfm, hcm, hct⟩⟩
       rintro ⟨ha, hn⟩
       have := hproc.guard hg ha
       simp [this] at hn
     obtain ⟨w, hw1, hw2⟩ := hw _ hpage
-    exact ⟨w, hw1, by simp [hw2, Item.path]⟩
+    exact ⟨w, hw1, by simp [hw2, WItem.path]⟩
 
 /-! ## titles -/
 
